@@ -170,10 +170,25 @@ def data_session(seed, n_steps=120, faults=True, with_close=False, with_partial=
                         s.op("flush %d" % side)  # fragments in consecutive packets
                 if k > 40:
                     sync()
+            elif with_close and rng.random() < 0.06 and not (flags & FLAG["open"]):
+                # a closing bunch too large for one packet: the C++ layer puts the close flag on every fragment
+                k = rng.randint(2, 4)
+                reason = rng.randint(0, 14)
+                closed[side].add(ch)
+                for i in range(k):
+                    fl = FLAG["rel"] | FLAG["close"] | FLAG["partial"] | (FLAG["pinit"] if i == 0 else 0) | (FLAG["pfinal"] if i == k - 1 else 0)
+                    s.op("send %d %d %d %d %d %d %d" % (side, ch, fl, reason, name, rng.choice([7264, 3000, 40]), s.next_pseed()))
+                    s.op("flush %d" % side)
+                    if rng.random() < 0.7:
+                        s.op("dla %d %d" % (other, side))
+                        s.op("update %d" % other)
+                budget["pk"] += k + 1
+                budget["rel"][(side, ch)] = budget["rel"].get((side, ch), 0) + k
+                flags |= FLAG["rel"]
             else:
                 if with_close and st["nrel"] >= 0 and rng.random() < 0.12 and not (flags & FLAG["open"]):
                     flags |= FLAG["close"] | FLAG["rel"]
-                    reason = rng.randint(0, 14)
+                    reason = rng.choice(list(range(15)))
                     closed[side].add(ch)
                 bits = payload_bits(rng)
                 s.op("send %d %d %d %d %d %d %d" % (side, ch, flags, reason, name, bits, s.next_pseed()))
@@ -202,13 +217,24 @@ def data_session(seed, n_steps=120, faults=True, with_close=False, with_partial=
                 ch = rng.choice(pool)
                 fl = FLAG["close"] | (FLAG["open"] if ch not in chans[side] else 0) | FLAG["rel"]
                 s.op("send %d %d %d %d %d %d %d" % (side, ch, fl, 15, 3, 8, s.next_pseed()))  # close reason 15 cannot be serialised
+        elif r < 0.53 and chans[side]:
+            # fill the current packet exactly (or leave 1-2 bits): the boundary of the send buffer
+            ch = rng.choice(sorted(chans[side]))
+            if ch not in closed[side] and ch not in closed[other]:
+                s.op("send %d %d %d 0 3 %d %d" % (side, ch, rng.choice([0, 8]), rng.choice([600, 1500, 3000, 5000]), s.next_pseed()))
+                rel = rng.choice([0, 8])
+                s.op("sendfill %d %d %d 3 %d %d" % (side, ch, rel, rng.choice([0, 0, 1, 2, 7]), s.next_pseed()))
+                budget["pk"] += 2
+                if rel:
+                    budget["rel"][(side, ch)] = budget["rel"].get((side, ch), 0) + 1
+                    chans[side][ch]["nrel"] += 1
         elif r < 0.7:
             s.op("flush %d" % side)
             budget["pk"] += 1
         elif r < 0.78:
             s.op("tick %d" % rng.choice([1000000, 50000000, 199000000, 200000000, 201000000, 250000000]))
-        elif r < 0.82 and updates:
-            s.op("update %d" % side)
+        elif r < (0.9 if with_close else 0.82) and updates:
+            s.op("update %d" % rng.choice([1, 2]))
         else:
             for _ in range(rng.randint(1, 3)):
                 fate_deliver(s, rng, other, side, p_drop, p_dup, p_reo)
@@ -222,10 +248,13 @@ def data_session(seed, n_steps=120, faults=True, with_close=False, with_partial=
 
 
 def window_session(seed):
-    """many packets in flight with the peer's acks withheld: history length 1..8 words, >256 outstanding"""
+    """many packets in flight with the peer's acks delayed or withheld: ack-history length 1..8 words, more than 256 packets
+    awaiting a verdict, data pending in the send buffer while acknowledgements arrive"""
     rng = random.Random(seed)
     s = Session(rng)
     s.op("reset")
+    if rng.random() < 0.4:
+        s.op("cfg magic %d %d" % rng.choice([(3, 5), (8, 0xA5), (32, 0xDEADBEEF)]))
     s.op("conn 1")
     s.op("conn 2")
     a_out, b_out = seq_choice(rng), seq_choice(rng)
@@ -238,6 +267,7 @@ def window_session(seed):
     respect = rng.random() < 0.7
     if burst > 240:
         s.note("window-exceeded")
+    p_back = rng.choice([0.0, 0.05, 0.15, 0.4])
     for i in range(burst):
         if respect:
             s.op("wb 1 1")
@@ -249,12 +279,18 @@ def window_session(seed):
             s.op("dln 2 1")
         else:
             s.op("drop 1")
-        if rng.random() < 0.15:
-            s.op("flush 2")  # emitted, but withheld from endpoint 1 until later
+        r = rng.random()
+        if r < 0.15:
+            s.op("flush 2")  # emitted, but possibly withheld from endpoint 1 until later
+        elif r < 0.3:
+            # data waits in endpoint 2's send buffer (header placeholder written now) while more packets arrive
+            s.op("send 2 1 %d 0 1 %d %d" % (rng.choice([8, 0]), payload_bits(rng, small=True), s.next_pseed()))
+        if rng.random() < p_back:
+            s.op(rng.choice(["dln 1 2", "dln 1 2", "drop 2"]))
     if rng.random() < 0.5:
         s.op("drop 2")
     s.note("drain")
-    drain(s, 1, 2, rounds=10)
+    drain(s, 1, 2, rounds=12)
     s.note("drained")
     s.op("nodes")
     return s.ops
@@ -288,9 +324,21 @@ def clock_session(seed):
         s.op("seqinit 2 %d %d" % (a_out, b_out))
         s.note("peers 1 2")
     s.note("clock")
+    if rng.random() < 0.6:
+        s.op("send 1 1 9 0 1 8 %d" % s.next_pseed())
+        s.op("send 2 1 9 0 1 8 %d" % s.next_pseed())
     for _ in range(rng.randint(10, 40)):
         r = rng.random()
-        if r < 0.5:
+        if r < 0.2:
+            side = rng.choice([1, 2])
+            s.op("tick %d" % (rng.choice([0, 1, 50, 199, 200, 201, 300]) * 1000000))
+            s.op("send %d 1 %d 0 1 %d %d" % (side, rng.choice([0, 8]), payload_bits(rng, small=True), s.next_pseed()))
+            s.op("flush %d" % side)
+            s.op("tick %d" % (rng.choice([1, 50, 100, 199]) * 1000000))
+            s.op("flush %d" % side)
+            if rng.random() < 0.7:
+                s.op("dla %d %d" % (3 - side, side))
+        elif r < 0.5:
             s.op("tick %d" % (rng.choice([1, 50, 100, 199, 200, 201, 250, 400, 1000]) * 1000000))
             side = rng.choice([1, 2])
             s.op("flush %d" % side)
@@ -351,7 +399,7 @@ def handshake_session(seed, fates=None, n_fate=6, hostile=False, tick_ms=None, a
                         s.op("ldlv 10 %s 1 -1" % addr) if rng.random() < 0.5 else s.op("route 10 %s 1" % addr)
                     elif f == "r":
                         s.op("drop 1")
-                        held.append(("c", rnd))
+                        held.append(["c", rng.randint(1, 3), 0])
                     else:
                         s.op("route 10 %s 1" % addr)
                 else:
@@ -361,8 +409,22 @@ def handshake_session(seed, fates=None, n_fate=6, hostile=False, tick_ms=None, a
                         elif f == "u":
                             s.op("dln 1 %d" % src)
                             s.op("dlv 1 %d -1" % src)
+                        elif f == "r":
+                            s.op("drop %d" % src)
+                            held.append(["s%d" % src, rng.randint(1, 3), 0])
                         else:
                             s.op("dln 1 %d" % src)
+        # held-back datagrams arrive late (the cursor has moved on: they are addressed relative to it, best effort)
+        for h in held:
+            h[1] -= 1
+            h[2] += 1
+            if h[1] == 0:
+                back = rng.randint(1, 4)
+                if h[0] == "c":
+                    s.op("routeat 10 %s 1 -%d" % (addr, back))
+                else:
+                    s.op("dlv 1 %s -%d" % (h[0][1:], back))
+        held[:] = [h for h in held if h[1] > 0]
         if rotations and rng.random() < 0.2:
             s.op("rot 10")
         if hostile and rng.random() < 0.5:
@@ -457,7 +519,10 @@ def listener_session(seed):
         addr = rng.choice(["10.0.0.%d:%d" % (k, 1000 + k), "a%d" % k, ("b%d" % k) * 20, ("c%d" % k).ljust(63, "c"), ("d%d" % k).ljust(61, "d")])
         s.op("conn %d" % c)
         s.op("connect %d" % c)
+        if rng.random() < 0.6:
+            s.op("tick %d" % (rng.choice([1, 500, 3000, 14000, 20000]) * 1000000))
         # initial packet -> challenge
+        s.op("skip 10")
         s.note("expect noaccept")
         s.op("ldlv 10 %s %d 0" % (addr, c))
         s.op("drop %d" % c)
@@ -489,11 +554,14 @@ def listener_session(seed):
             elif kind < 0.8:
                 s.op("ldlv 10 %s %d 0" % (addr + "x" if len(addr) < 63 else addr[:-1], c))
             else:
-                s.op("lmut 10 %s %d 0 trunc %d 0" % (addr, c, rng.randint(0, 60)))
+                s.op("lmut 10 %s %d 0 trunc %d 0" % (addr, c, rng.randint(0, 40)))  # always cuts into the cookie or before it
         cid += 1
         s.op("onaccept 10 %s %d" % (addr, cid))
         ok = delay_ms < 40000 and rot <= 1
-        if rot >= 2 and delay_ms < 40000:
+        if delay_ms == 40000:
+            # exactly on the lifetime boundary the binary64 subtraction of two ~1e5 s clock values decides (±1 ulp): either verdict is fine
+            s.note("expect any")
+        elif rot >= 2 and delay_ms < 40000:
             # rejected unless both rotations happened at the very instant of the challenge (documented residual case) -- avoid tagging it
             if len(parts) >= 2 and parts[1] == 0:
                 s.note("expect any")
@@ -505,6 +573,26 @@ def listener_session(seed):
         if rng.random() < 0.5:
             s.note("expect any")
             s.op("ldlv 10 %s %d 0" % (addr, c))  # replayed response: accepted again by a stateless listener (allowed by the property: same issued cookie)
+        # structure-aware variants of the valid response (every header field): the echoed (secret id, timestamp, cookie) is
+        # what authenticates; restart bit / type / version / count / padding are free, a touched cookie or secret id is not
+        for _ in range(rng.randint(0, 3)):
+            kind = rng.random()
+            if kind < 0.35:
+                s.note("expect noaccept")
+                s.op("lcraft 10 %s %d 0 -1 -1 -1 -1 -1 %d -1 -1" % (addr, c, rng.randint(0, 19)))
+            elif kind < 0.5:
+                s.note("expect any")   # the secret id is set, not flipped: it may coincide with the echoed one
+                s.op("lcraft 10 %s %d 0 -1 -1 -1 -1 %d -1 -1 -1" % (addr, c, rng.choice([0, 1])))
+            elif kind < 0.8:
+                # a restart response echoing the same cookie: reported as a re-connect when the echo is valid
+                s.note("expect %s" % ("any" if delay_ms == 40000 else "restart-accept" if ok else "noaccept"))
+                s.op("lcraft 10 %s %d 0 1 5 -1 %d -1 -1 %d %d" % (addr, c, rng.randint(0, 255), rng.randint(0, 200), rng.choice([9, 12, 16])))
+                # ... after which a bare initial packet from that address must again be answered by a challenge only
+                s.note("expect noaccept")
+                s.op("ldlv 10 %s %d -1" % (addr, c))
+            else:
+                s.note("expect any")
+                s.op("lcraft 10 %s %d 0 -1 %d %d %d -1 -1 -1 %d" % (addr, c, rng.choice([0, 1, 2, 3, 4, 5, 6, 255]), rng.choice([0, 1, 2, 3, 4, 200]), rng.randint(0, 255), rng.randint(0, 31)))
         s.note("hostile")
         hostile_ops(s, rng, [c], [c, 10], listener=(10, addr), n=rng.randint(0, 3))
     return s.ops
@@ -574,3 +662,67 @@ def large_session(seed):
             s.op("dla 1 2")
     s.note("drained")
     return s.ops
+
+
+def hs_replay_session(seed):
+    """C04: after the handshake has completed and data has flowed, every earlier handshake datagram is presented again"""
+    rng = random.Random(seed)
+    base = handshake_session(rng.randint(0, 1 << 30), fates=["d"] * 6, hostile=False, rotations=False)
+    addr = [l for l in base if l.startswith("#! handshake")][0].split()[2]
+    out = [l for l in base if not l.startswith("#! drained")]
+    s = Session(rng)
+    for _ in range(rng.randint(2, 8)):
+        who = rng.random()
+        s.note("replay")
+        if who < 0.5:
+            s.op("dlv 1 10 -%d" % rng.randint(1, 3))      # listener's challenge / ack to the connected client
+        elif who < 0.8:
+            s.op("dlv 1 2 -%d" % rng.randint(1, 6))
+        else:
+            s.op("rpl 2 1 %d" % rng.randint(0, 6))          # old client datagrams to the server-side connection
+        if rng.random() < 0.5:
+            s.op("send 1 0 8 0 1 %d %d" % (payload_bits(rng, small=True), s.next_pseed()))
+            s.op("send 2 0 8 0 1 %d %d" % (payload_bits(rng, small=True), s.next_pseed()))
+            s.op("tick 250000000")
+            s.op("flush 1")
+            s.op("route 10 %s 1" % addr)
+            s.op("flush 2")
+            s.op("dla 1 2")
+    out += s.ops
+    for _ in range(4):
+        out += ["tick 250000000", "flush 1", "route 10 %s 1" % addr, "route 10 %s 1" % addr, "flush 2", "dla 1 2"]
+    out.append("#! drained")
+    return out
+
+
+FLAG_COMBOS = None
+
+
+def unit_session(seed, n=400):
+    """C11 / C12: the codec and the bit-buffer primitives driven directly, at every bit offset"""
+    rng = random.Random(seed)
+    ops = ["reset"]
+    for _ in range(n):
+        r = rng.random()
+        if r < 0.45:
+            flags = rng.randint(0, 511)
+            reason = rng.randint(0, 14) if rng.random() < 0.9 else 15
+            name = rng.choice([0, 1, 127, 128, 16383, 16384, 2097151, 2097152, 268435455, 268435456, 4294967295, rng.randint(0, 4294967295)])
+            ch = rng.choice([0, 1, 63, 64, 127, 128, 8191, 8192, 16383, 16384, 32766, 32767, 65535, rng.randint(0, 65535)])
+            chseq = rng.choice([0, 1, 511, 512, 1022, 1023, 1024, 1025, 2047, 2048, 65535, 1 << 20, rng.randint(0, 1 << 21)])
+            bits = rng.choice([0, 1, 7, 8, 9, 63, 64, 65, 7264, 7265, rng.randint(0, 7265)])
+            ops.append("codec %d %d %d %d %d %d %d %d" % (ch, flags, reason, name, chseq, bits, rng.randint(1, 1 << 30), rng.randint(0, 63)))
+        elif r < 0.75:
+            mx = rng.choice([2, 3, 4, 5, 7, 8, 9, 15, 16, 17, 255, 256, 257, 1023, 1024, 1025, 8191, 8192, 8193, 65535, 65536, (1 << 31) - 1, 1 << 31, (1 << 32) - 1,
+                             rng.randint(2, (1 << 32) - 1), rng.randint(2, 70000)])
+            v = rng.choice([0, 1, mx - 1, mx // 2, max(0, mx // 2 - 1), rng.randint(0, mx - 1)])
+            if rng.random() < 0.1:
+                v = mx + rng.randint(0, 3)   # refused by the writer
+            ops.append("bbint %d %d %d" % (v, mx, rng.randint(0, 63)))
+        elif r < 0.85:
+            k = rng.randint(1, 32)
+            ops.append("bbwrapped %d %d %d" % (rng.randint(0, (1 << 32) - 1), 1 << k if k < 32 else (1 << 32) - 1, rng.randint(0, 63)))
+        else:
+            v = rng.choice([0, 1, 127, 128, 16383, 16384, 2097151, 2097152, 268435455, 268435456, 4294967295, rng.randint(0, 4294967295)])
+            ops.append("bbpacked %d %d" % (v, rng.randint(0, 63)))
+    return ops
